@@ -218,6 +218,12 @@ func (c *ctx) intExpr(e ast.Expr) (string, bool) {
 			return "(Z.shiftl " + a + " " + b + ")", w
 		case token.SHR:
 			return "(Z.shiftr " + a + " " + b + ")", w
+		case token.OR:
+			return "(Z.lor " + a + " " + b + ")", w
+		case token.AND:
+			return "(Z.land " + a + " " + b + ")", w
+		case token.XOR:
+			return "(Z.lxor " + a + " " + b + ")", w
 		}
 	case *ast.SelectorExpr:
 		if x, ok := v.X.(*ast.Ident); ok {
